@@ -187,6 +187,47 @@ class MayRaise:
     def is_sub(self, exc: str, of: str) -> bool:
         return self.exc.is_subclass(exc, of)
 
+    def param_const(self, fi: FuncInfo, name: str):
+        """The folded constant every call site in the package passes for parameter `name` of the module-level
+        function `fi` (no default used, no other reference to the function), else NOFOLD."""
+        key = (fi.ref, name)
+        memo = self.__dict__.setdefault("_pc_memo", {})
+        if key in memo:
+            return memo[key]
+        res = NOFOLD
+        if fi.cls is None:
+            args = [a.arg for a in fi.node.args.posonlyargs + fi.node.args.args]
+            vals = []
+            ok = True
+            for g in self.repo.all_functions():
+                for n in ast.walk(g.node):
+                    if isinstance(n, ast.Name) and n.id == fi.name and isinstance(n.ctx, ast.Load):
+                        tgt = self.repo.resolve(g.module.name, n.id)
+                        if tgt is not fi and not (isinstance(tgt, FuncInfo) and tgt.ref == fi.ref):
+                            continue
+                        # must be the func of a Call
+                        par = [c for c in ast.walk(g.node) if isinstance(c, ast.Call) and c.func is n]
+                        if not par:
+                            ok = False
+                            continue
+                        c = par[0]
+                        v = None
+                        for k in c.keywords:
+                            if k.arg == name:
+                                v = k.value
+                            if k.arg is None:
+                                ok = False
+                        if v is None and name in args and args.index(name) < len(c.args) and not any(isinstance(a, ast.Starred) for a in c.args):
+                            v = c.args[args.index(name)]
+                        if v is None:
+                            ok = False
+                        else:
+                            vals.append(self.repo.fold(v, g.module, g.cls))
+            if ok and vals and all(v is not NOFOLD and v == vals[0] for v in vals):
+                res = vals[0]
+        memo[key] = res
+        return res
+
 
 class _FuncAnalysis:
     def __init__(self, mr: MayRaise, fi: FuncInfo, ctx: ClassInfo | None, argkinds: dict[str, frozenset[str]] | None = None) -> None:
@@ -672,6 +713,9 @@ class _FuncAnalysis:
             v = self.repo.fold(right, self.mod, self.ctx)
             if isinstance(v, (int, float)) and v != 0:
                 return self.site([("ZeroDivisionError", "division")], node, f"constant divisor {v}")
+            rr = self.int_range(right, local)
+            if rr is not None and (rr[0] > 0 or rr[1] < 0):
+                return self.site([("ZeroDivisionError", "division")], node, f"divisor in [{rr[0]}, {rr[1]}] excludes 0")
             rt = ast.unparse(right)
             for atom, val in self.facts(node, local):
                 if (atom == rt and val) or (atom in (f"{rt} == 0", f"not {rt}") and not val) or (atom in (f"{rt} != 0", f"{rt} > 0") and val):
@@ -717,8 +761,32 @@ class _FuncAnalysis:
         return out
 
     # ------------------------------------------------------------------ calls
+    SPAWNERS = ("create_task", "ensure_future", "run_coroutine_threadsafe")
+
     def call(self, c: ast.Call, local: tuple = ()) -> set[Esc]:
         out: set[Esc] = set()
+        if method_name(c) in self.SPAWNERS or call_name(c).split(".")[-1] in self.SPAWNERS:
+            # a coroutine object handed to a task spawner runs in its own task: creating it executes nothing, and
+            # what the task raises stays in the task (it never propagates into the spawning frame)
+            for a in c.args:
+                tgt_async = False
+                if isinstance(a, ast.Call):
+                    if isinstance(a.func, ast.Attribute) and isinstance(a.func.value, ast.Name) and a.func.value.id in ("self", "cls") and self.ctx is not None:
+                        m_ = self.repo.lookup_method(self.ctx, a.func.attr)
+                        tgt_async = m_ is not None and m_.is_async
+                    elif isinstance(a.func, ast.Name):
+                        t_ = self.repo.resolve(self.mod.name, a.func.id)
+                        tgt_async = isinstance(t_, FuncInfo) and t_.is_async
+                if isinstance(a, ast.Call) and tgt_async:
+                    for x in list(a.args) + [k.value for k in a.keywords]:
+                        out |= self.expr(x, local)
+                    if isinstance(a.func, ast.Attribute):
+                        out |= self.expr(a.func.value, local)
+                else:
+                    out |= self.expr(a, local)
+            for k in c.keywords:
+                out |= self.expr(k.value, local)
+            return out
         for a in c.args:
             out |= self.expr(a, local)
         for k in c.keywords:
@@ -867,6 +935,12 @@ class _FuncAnalysis:
         v = self.repo.fold(e, self.mod, self.ctx)
         if isinstance(v, int) and not isinstance(v, bool):
             return (v, v)
+        if isinstance(e, ast.Name) and e.id in self.params:
+            pc = self.mr.param_const(self.fi, e.id)
+            if isinstance(pc, int) and not isinstance(pc, bool):
+                return (pc, pc)
+        if isinstance(e, ast.NamedExpr):
+            return self.int_range(e.value, local)
         if isinstance(e, ast.BinOp):
             if isinstance(e.op, ast.BitAnd):
                 for a, b in ((e.left, e.right), (e.right, e.left)):
@@ -878,6 +952,36 @@ class _FuncAnalysis:
                 k = self.repo.fold(e.right, self.mod, self.ctx)
                 if r is not None and isinstance(k, int) and k >= 0:
                     return (r[0] >> k, r[1] >> k)
+            if isinstance(e.op, ast.Mod):
+                kr = self.int_range(e.right, local)
+                lk = kinds(self.typ(e.left))
+                if kr is not None and kr[0] >= 1 and (self.int_range(e.left, local) is not None or (lk and lk <= {"int", "bool"})):
+                    return (0, kr[1] - 1)
+            if isinstance(e.op, (ast.Add, ast.Sub, ast.Mult, ast.LShift, ast.BitOr)):
+                ra, rb = self.int_range(e.left, local), self.int_range(e.right, local)
+                if ra is not None and rb is not None:
+                    if isinstance(e.op, ast.Add):
+                        return (ra[0] + rb[0], ra[1] + rb[1])
+                    if isinstance(e.op, ast.Sub):
+                        return (ra[0] - rb[1], ra[1] - rb[0])
+                    if isinstance(e.op, ast.Mult) and ra[0] >= 0 and rb[0] >= 0:
+                        return (ra[0] * rb[0], ra[1] * rb[1])
+                    if isinstance(e.op, ast.LShift) and ra[0] >= 0 and 0 <= rb[0] and rb[1] <= 64:
+                        return (ra[0] << rb[0], ra[1] << rb[1])
+                    if isinstance(e.op, ast.BitOr) and ra[0] >= 0 and rb[0] >= 0:
+                        return (0, (1 << max(ra[1].bit_length(), rb[1].bit_length())) - 1)
+        if isinstance(e, ast.Call) and call_name(e) == "int.from_bytes" and e.args and isinstance(e.args[0], ast.Subscript) and isinstance(e.args[0].slice, ast.Slice):
+            sl = e.args[0].slice
+            lo = self.repo.fold(sl.lower, self.mod, self.ctx) if sl.lower is not None else 0
+            hi = self.repo.fold(sl.upper, self.mod, self.ctx) if sl.upper is not None else None
+            if isinstance(lo, int) and isinstance(hi, int) and 0 <= lo <= hi and not any(k.arg == "signed" for k in e.keywords):
+                return (0, 256 ** (hi - lo) - 1)
+        if isinstance(e, ast.Attribute) and e.attr == "value":
+            for ci in self.classes_of_type(self.typ(e.value)):
+                if self.repo.is_enum(ci):
+                    vals = [v for v in self.repo.enum_members(ci).values()]
+                    if vals and all(isinstance(v, int) and not isinstance(v, bool) for v in vals):
+                        return (min(vals), max(vals))
         if isinstance(e, ast.Subscript) and not isinstance(e.slice, ast.Slice):
             if self.from_validated_payload(e.value):
                 pt = self.repo.class_attr_expr(self.ctx, "payload_type") if self.ctx is not None else None
@@ -890,9 +994,16 @@ class _FuncAnalysis:
                 return (0, 255)
         if isinstance(e, ast.Name):
             # single assignment local
-            defs = [n for n in walk_local(self.fi.node) if isinstance(n, ast.Assign) and len(n.targets) == 1 and isinstance(n.targets[0], ast.Name) and n.targets[0].id == e.id]
-            if len(defs) == 1:
-                return self.int_range(defs[0].value, ())
+            defs = [n for n in walk_local(self.fi.node) if (isinstance(n, ast.Assign) and len(n.targets) == 1 and isinstance(n.targets[0], ast.Name) and n.targets[0].id == e.id) or (isinstance(n, ast.NamedExpr) and n.target.id == e.id)]
+            others = [n for n in walk_local(self.fi.node) if isinstance(n, (ast.AugAssign, ast.For, ast.AnnAssign)) and any(isinstance(x, ast.Name) and x.id == e.id and isinstance(x.ctx, ast.Store) for x in ast.walk(n))]
+            if len(defs) == 1 and not others and e.id not in self.params:
+                r = self.int_range(defs[0].value, ())
+                if r is not None:
+                    # truthiness / comparison facts at the use refine the lower end
+                    for atom, val in self.facts(e, local):
+                        if val and (atom == e.id or atom == f"({ast.unparse(defs[0])})" or (isinstance(defs[0], ast.NamedExpr) and atom == ast.unparse(defs[0]))) and r[0] == 0:
+                            r = (1, r[1])
+                return r
             if kinds(self.typ(e)) == {"bool"}:
                 return (0, 1)
         if isinstance(e, ast.Call) and call_name(e) == "bool":
@@ -949,7 +1060,10 @@ class _FuncAnalysis:
                 return set()
             if kinds(at) and kinds(at) <= {"int"}:
                 v = self.repo.fold(c.args[0], self.mod, self.ctx)
-                return set() if isinstance(v, int) and v >= 0 else self.site([("ValueError", "bytes(negative int)")], c, None)
+                if isinstance(v, int) and v >= 0:
+                    return set()
+                rr = self.int_range(c.args[0], local)
+                return self.site([("ValueError", "bytes(negative int)")], c, f"count in [{rr[0]}, {rr[1]}] is non-negative" if rr is not None and rr[0] >= 0 else None)
             # iterable of ints: every element must be an octet
             a0 = c.args[0]
             gen_ok = isinstance(a0, (ast.GeneratorExp, ast.ListComp)) and len(a0.generators) == 1 and isinstance(a0.generators[0].target, ast.Name) and isinstance(a0.elt, ast.Name) and a0.elt.id == a0.generators[0].target.id and self.from_validated_payload(a0.generators[0].iter)
